@@ -56,4 +56,14 @@ CHECKS = {
         "real": RIG_L_REAL,
         "stub": RIG_L_STUB,
     },
+    "C20": {
+        "level": "exploration",
+        "quick": {"runs": 100000, "wall_s": 40},
+        "thorough": {"runs": 20000000, "wall_s": 900},
+        "rule": "seeded record-length sequences (0..40 records; bodies biased to 1/2/127/128 byte prefixes, frames ending within +-8 bytes of 1024 and 2048, 16383/16384, 70 kB) encoded by the store's own writers, optional zero terminator and stale bytes after it, decoded (a) by MessageBufReader fed a PRNG partition of the stream (chunk styles: tiny, around 1024, ending exactly on record boundaries, byte-by-byte, full 1024) in the log-scan and in the stream-reader loop, (b) by FileMessageReader read_next / read_index_position / read_to_end over a simulated file, (c) by the 1024-byte read loop and by the real SnapshotReader over a simulated file with PRNG-short reads; oracle: decoded frames == written frames, in order, none after the first zero length, none dropped; non-trivial = at least 2 records; distinct = distinct event-log hash. The varint clause (writer, reader, size function agree) has no I/O or schedule in it and is checked as plain enumeration (boundary values of every length + 200 seeded values per run), reported under varint.values_checked, not as simulated runs.",
+        "probes": ["record_gt_1024", "record_ends_on_chunk_end", "prefix_1b", "prefix_2b", "prefix_3b", "snapshot_header_gt_1024"],
+        "assumptions": ["short reads are injected only into readers that loop over reads (MessageBufReader consumers); FileMessageReader::read_len/read_next issue one read per item and rely on tokio::fs returning full counts below 2 MiB - records above 2 MiB through read_next are out of the explored sizes", "record bodies are PRNG bytes without zeros"],
+        "real": ["MessageBufReader, FileMessageReader, write_varint64/read_varint64/inner_sizeof_varint, SnapshotReader, quick-protobuf writers of LogRecord / LogSnapshotItem / SnapshotHeader"],
+        "stub": ["tokio::fs -> simtokio::fs (reads return PRNG-short counts when enabled)"],
+    },
 }
